@@ -24,4 +24,21 @@ def replay(model, obligation):
     p2._replace(old2)
     if old2.is_closed:
         fails.append('old connection closed by _replace while a non-orphaned request was in flight (in_flight=3, orphans=2)')
+    if '_on_timeout' in obligation:
+        # the flag was raised, late responses shrank the orphan set below the threshold, one more request times out
+        from contracts.native import rf
+        cl = rf.load_cluster()
+        log = []
+        h = rf.Host('h1')
+        pool = rf.Pool(log, h)
+        session = rf.Session(log, {h: pool})
+        f = rf.future(cl, session, [h], timeout=1.0)
+        f.send_request()
+        c = pool.conn
+        c.orphaned_threshold, c.orphaned_threshold_reached, c.orphaned_request_ids = 3, True, {90}
+        c._requests[f._req_id] = (f._set_result, None, None)
+        f._on_timeout()
+        if c.orphaned_threshold_reached is not True:
+            fails.append('a timeout with %d orphans (threshold 3) lowered orphaned_threshold_reached after it had been raised: the pending _replace will neither trash nor close this connection'
+                         % len(c.orphaned_request_ids))
     return {'reproduced': bool(fails), 'detail': '; '.join(fails[:3]) or 'no disagreement'}
